@@ -225,6 +225,7 @@ def dispatchFloat : String → List Val → Option Val
 
 def dispatchMachines : String → List Val → Option Val
   | "nc.run", [list ops] => Machines.ncRun ops
+  | "nc.run2", [list ops] => Machines.ncRun2 ops
   | "bar.run", [str key, int count, u, list ops] => (ratOf u).bind fun q => Machines.barRun key count q ops
   | "track.run", [str instr, list ops] => Machines.trackRun instr ops
   | "comp.run", [list ops] => Machines.compRun ops
